@@ -725,7 +725,17 @@ pub fn gen_wide_comb(r: &mut Rng) -> IG {
     IG::Polygon(rings.into_iter().map(|rg| rg.into_iter().map(|(x, y)| { let y = if fl { h + 3 - y } else { y }; if tr { (y, x) } else { (x, y) } }).collect()).collect())
 }
 
+/// false under the interpreter legs (GVH_NO_LARGE set by the driver): Miri runs some four orders of magnitude slower
+/// than the machine, the strata of realistic size stay with the native shards and the ASan legs
+pub fn large_enabled() -> bool {
+    static ON: std::sync::OnceLock<bool> = std::sync::OnceLock::new();
+    *ON.get_or_init(|| std::env::var_os("GVH_NO_LARGE").is_none())
+}
+
 pub fn gen_large(r: &mut Rng) -> (IG, &'static str) {
+    if !large_enabled() {
+        return (gen_any(r, 6), "large:disabled(interpreter leg)");
+    }
     match r.below(8) {
         7 => (gen_wide_comb(r), "large:comb_or_plate_with_many_teeth"),
         0 => {
@@ -960,6 +970,9 @@ pub fn long_ring(r: &mut Rng, n: usize) -> Vec<IP> {
 
 /// a count just around / well beyond the block sizes code likes to use (16 .. 1024)
 pub fn long_count(r: &mut Rng) -> usize {
+    if !large_enabled() {
+        return r.range(5, 12) as usize;
+    }
     let base = *r.pick(&[16usize, 32, 64, 128, 256, 512]);
     match r.below(4) {
         0 => base + 1 + r.below(4) as usize,
